@@ -82,6 +82,12 @@ class _Canon(ast.NodeTransformer):
             return n.args[0]
         if f == "cast" and len(n.args) == 2:
             return n.args[1]
+        # N6: floor is floor in both worlds: libc floor() on a C double, math.floor() on a Python float; the value is integral, so a
+        # following int() / C int cast does not change it (within the int range, which R13.2 treats separately)
+        if f in ("math.floor", "floor") and len(n.args) == 1:
+            return ast.Call(func=ast.Name(id="floor", ctx=ast.Load()), args=n.args, keywords=[])
+        if f == "int" and len(n.args) == 1 and isinstance(n.args[0], ast.Call) and norm(n.args[0].func) == "floor":
+            return n.args[0]
         if f in ("float",) and len(n.args) == 1:
             return n.args[0]
         if f == "_total_seconds" and len(n.args) == 1:
